@@ -65,7 +65,7 @@ class Exec:
         self.methods = npmodels.METHODS
         self.spec_builtins = npmodels.SPEC_BUILTINS
         self.spec_consts = npmodels.SPEC_CONSTS
-        from . import specs
+        from . import specs, objmodels  # noqa: F401  (registers models)
         specs.install(self.spec_builtins)
 
     # ------------------------------------------------------------------ path machinery
@@ -761,7 +761,10 @@ class Exec:
                     return self.call_function(cm, [base], {}, n, env, fr)
                 return BoundMethod(base, attr)
             raise PathRaise("AttributeError", n)
-        if isinstance(base, (Arr, Small, SymDict, Opaque, ListMap, list, dict, tuple, str, _ListMapRow)):
+        if isinstance(base, Opaque):
+            from .objmodels import opaque_attr
+            return opaque_attr(self, base, attr)
+        if isinstance(base, (Arr, Small, SymDict, ListMap, list, dict, tuple, str, _ListMapRow)):
             return BoundMethod(base, attr)
         if is_scalar(base):
             return BoundMethod(base, attr)
@@ -1452,6 +1455,9 @@ class Exec:
         if isinstance(fn, DType):
             (v,) = args
             return v
+        if isinstance(fn, Opaque) and fn.ghost.get("bound"):
+            b, name = fn.ghost["bound"]
+            return self.call_method(b, name, args, kwargs, n, env, fr)
         raise Unsupported(f"call of {type(fn).__name__} at {loc_of(fr, n)}")
 
     def call_method(self, obj, name, args, kwargs, n, env, fr):
